@@ -67,7 +67,7 @@ def enumerate_scenarios(tier, rng):
     return out
 
 
-def build_spec(sc, shard_no, slot, index, rng):
+def build_spec(sc, shard_no, slot, index, rng, port_base=12000):
     js = base_job()
     faults, sleeps, kill = {}, {}, None
     if sc["kind"] == "task":
@@ -80,7 +80,7 @@ def build_spec(sc, shard_no, slot, index, rng):
             sleeps = {"mid": 1.5, "side": 1.5, "src": 0.3}
     if sc.get("random_job"):
         from vlib.jobgen import gen_jobspec
-        js = gen_jobspec(rng, max_tasks=6, gpu=False, big_outputs=False, shape=rng.choice(["layered", "diamond", "chain", "fanin"]))
+        js = gen_jobspec(rng, max_tasks=sc.get("max_tasks", 6), gpu=False, big_outputs=False, shape=rng.choice(["layered", "diamond", "chain", "fanin", "triangular", "components"]))
         js["edges"] = [list(e) for e in js["edges"]]
         js["ext"] = [list(e) for e in js["ext"]]
         if sc["kind"] == "task" and js["order"]:
@@ -91,7 +91,7 @@ def build_spec(sc, shard_no, slot, index, rng):
             last = sorted(js["tasks"][t]["outputs"])[-1]
             faults = {t: {"when": sc["when"], "how": sc["how"], "ds": f"{t}.{last}"}}
     nh, nw = sc["shape"]
-    cport = 12000 + (shard_no * 8 + slot) * 40  # below the ephemeral range (32768+), or outgoing connections steal the port
+    cport = port_base + (shard_no * 8 + slot) * 40  # below the ephemeral range (32768+), or outgoing connections steal the port
     hid = f"{shard_no:x}{index % 4096:03x}"
     hosts = [{"id": f"{hid}{h}", "workers": nw, "port": cport + 1 + h * 10} for h in range(nh)]
     tmp = tempfile.mkdtemp(prefix=f"v05-{hid}-")
@@ -109,9 +109,9 @@ def fault_label(sc):
     return "no-fault"
 
 
-def run_scenario(col: Collector, sc, shard_no, slot, index, rng):
+def run_scenario(col: Collector, sc, shard_no, slot, index, rng, port_base=12000, prop="C05"):
     from vlib.common.driver import child_env, PY
-    spec, sc = build_spec(sc, shard_no, slot, index, rng)
+    spec, sc = build_spec(sc, shard_no, slot, index, rng, port_base)
     fd, path = tempfile.mkstemp(prefix="v05spec", suffix=".json")
     with os.fdopen(fd, "w") as f:
         json.dump(spec, f)
@@ -180,7 +180,14 @@ def run_scenario(col: Collector, sc, shard_no, slot, index, rng):
         col.violation(f"hang:{label}", f"the run neither returned nor raised: {res['hang']}; fault fired: {res.get('fault_fired')}", wit, index)
         return
     if oc == "returned" and res.get("values_ok") is False:
-        col.violation(f"returned-with-wrong-or-missing-value:{label}", f"{res.get('bad_values')}", wit, index)
+        col.violation(f"returned-with-wrong-or-missing-value:{label}" if prop == "C05" else "real-cluster:value-differs-from-sequential-evaluation", f"{res.get('bad_values')}", wit, index)
+        return
+    if prop == "C01":
+        col.count("real_cluster_runs")
+        if oc == "returned":
+            col.count("real_cluster_outputs_compared", len(spec["job"]["ext"]))
+        elif oc == "raised":
+            col.violation("real-cluster:run-raised-without-any-fault", f"{res.get('exception')}", wit, index)
         return
     leaks = res.get("leaks") or {}
     if leaks.get("processes"):
